@@ -97,6 +97,8 @@ def run(index, tier="quick", seed=0) -> Result:
         raise AnalysisError(f"only {pairs} (class, mutator) pairs enumerated; 69 confirmed on the pinned tree")
     if rot_sites < 2:
         raise AnalysisError("ROT-1 matched fewer than the 2 confirmed eigh sites (diagonalize_inertia x2)")
+    from ..parallel import report as _copy1
+    _copy1(res, index, lambda f: f['top'] in ('_rescale', 'sort_faces', 'merge_faces', 'diagonalize_inertia', '_sort_simplices', '_combine_simplices', '_consume_hull', '_find_neighbors', '_get_face_intersections', '_find_simplex_equations'))
     return res
 
 
